@@ -124,7 +124,7 @@ def check_c16(prop, tier, replay):
 
 
 def check_c20(prop, tier, replay):
-    n, tr = (8, 14) if tier == "quick" else (24, 56)
+    n, tr = (8, 15) if tier == "quick" else (24, 60)
     batches = [{"first": k * tr, "traces": tr, "mode": "import", "dur": 0,
                 "store": "tan" if k % 3 == 2 else None} for k in range(n)]
     return tv_run(prop, tier, replay, harness_dirs=HARNESS, pkg=".", test="TestVerifNhsim",
